@@ -512,8 +512,14 @@ def run(ck, pid):
                             reads.setdefault(did, []).append((fn, cast.where(node)))
                             continue
                     found.setdefault((did, fn), (detail, cast.where(node)))
+        def reporter(fn_):
+            # a function that does nothing but hand the value out (`return counter;`) reports a statistic; it is not an
+            # operation whose behaviour the value steers
+            b_ = [c for c in cast.inner(u.functions[fn_]) if cast.kind(c) == 'CompoundStmt']
+            st_ = [c for c in cast.inner(b_[0])] if b_ else []
+            return len(st_) == 1 and cast.kind(st_[0]) == 'ReturnStmt'
         for did, fn, kind_, detail, where in pending:
-            if not reads.get(did):
+            if not [r for r in reads.get(did, []) if not reporter(r[0])]:
                 continue            # written, never consulted: a statistic, not state the operations depend on
             if kind_ == 'mark':
                 # a flag set once under a condition on the static object itself is lazy initialisation; `controlled` only
